@@ -58,6 +58,12 @@ def main():
             exec(extra["code"], ns)
             res = ns["run"](model)
             out.update(res)
+            # accepted spelling: {"violated": bool, "observed": ...}
+            if "violated" in res and res.get("failing") is None:
+                out["failing"] = bool(res["violated"])
+                out.setdefault("result", repr(res.get("observed")))
+                if out["failing"] and not out.get("witness"):
+                    out["witness"] = "replay:" + repr(res.get("observed"))[:80]
         else:
             out["error"] = f"unknown schema {req['schema']}"
     except Exception:
